@@ -111,12 +111,12 @@ Proof.
 Qed.
 
 Definition verifies (c : cfg) (calls : nat) (sg : bytes) : Prop :=
-  skip_val c = true \/ nth_error (exp_sigs c) calls = Some sg.
+  skip_val c = true \/ nth_error (exp_sigs c) calls = Some (norm_sig c sg).
 
-Lemma sig_ok_of c calls sg : nth_error (exp_sigs c) calls = Some sg -> sig_ok c calls sg = true.
+Lemma sig_ok_of c calls sg : nth_error (exp_sigs c) calls = Some (norm_sig c sg) -> sig_ok c calls sg = true.
 Proof. unfold sig_ok. intros ->. apply bytes_eqb_refl. Qed.
 
-Lemma sig_ok_not c calls sg : nth_error (exp_sigs c) calls <> Some sg -> sig_ok c calls sg = false.
+Lemma sig_ok_not c calls sg : nth_error (exp_sigs c) calls <> Some (norm_sig c sg) -> sig_ok c calls sg = false.
 Proof.
   unfold sig_ok. intros H. destruct (nth_error (exp_sigs c) calls) as [e|]; [|reflexivity].
   apply bytes_eqb_neq. intros E. apply H. congruence.
@@ -156,7 +156,7 @@ Qed.
 Definition trailer_accepts (c : cfg) (tr : bytes) : bool :=
   if has_trailer c then
     let '(ck, tsig) := trailer_lines 8 true tr [] [] in
-    if trailer_signed c && negb (bytes_eqb tsig (exp_tsig c)) then false else ck_check c ck
+    if trailer_signed c && negb (bytes_eqb (norm_sig c tsig) (exp_tsig c)) then false else ck_check c ck
   else true.
 
 (* the terminating chunk *)
@@ -173,16 +173,16 @@ Proof.
     change (0 =? 0)%N with true; cbv iota.
   - destruct (has_trailer c); [|reflexivity].
     destruct (trailer_lines 8 true tr [] []) as [ck ts].
-    destruct (trailer_signed c && negb (bytes_eqb ts (exp_tsig c))); [reflexivity|]. destruct (ck_check c ck); reflexivity.
+    destruct (trailer_signed c && negb (bytes_eqb (norm_sig c ts) (exp_tsig c))); [reflexivity|]. destruct (ck_check c ck); reflexivity.
   - destruct (sig_ok c calls sgf); cbn [negb]; [|reflexivity].
     destruct (has_trailer c); [|reflexivity].
     destruct (trailer_lines 8 true tr [] []) as [ck ts].
-    destruct (trailer_signed c && negb (bytes_eqb ts (exp_tsig c))); [reflexivity|]. destruct (ck_check c ck); reflexivity.
+    destruct (trailer_signed c && negb (bytes_eqb (norm_sig c ts) (exp_tsig c))); [reflexivity|]. destruct (ck_check c ck); reflexivity.
 Qed.
 
 (* consistency of the expected tokens with the signatures carried by the chunks, from call [calls] on *)
 Definition sigs_from (c : cfg) (calls : nat) (sgs : list bytes) : Prop :=
-  skip_val c = true \/ forall i sg, nth_error sgs i = Some sg -> nth_error (exp_sigs c) (calls + i) = Some sg.
+  skip_val c = true \/ forall i sg, nth_error sgs i = Some sg -> nth_error (exp_sigs c) (calls + i) = Some (norm_sig c sg).
 
 Lemma sigs_from_head c calls sg sgs : sigs_from c calls (sg :: sgs) -> verifies c calls sg /\ sigs_from c (S calls) sgs.
 Proof.
@@ -247,7 +247,7 @@ Qed.
 (* a chunk (any size field, any data that is completely present) whose signature token does not verify *)
 Lemma dec_bad_chunk f c hs sg Y cursig calls acc :
   skip_val c = false -> hexstr hs = true -> (0 < hexv hs < 18446744073709551616)%N -> tok_ok sg = true ->
-  nth_error (exp_sigs c) calls <> Some sg -> (hexv hs + 2 <= lenN Y)%N ->
+  nth_error (exp_sigs c) calls <> Some (norm_sig c sg) -> (hexv hs + 2 <= lenN Y)%N ->
   dec (S f) c (hs ++ sig_ext ++ sg ++ CRLF ++ Y) cursig calls acc = Reject.
 Proof.
   intros Esk Hhs [Hpos Hlt] Htok Hbad Hlen. pose proof Hhs as Hhs'. unfold hexstr in Hhs'. apply andb_prop in Hhs' as [_ Hh].
@@ -265,7 +265,7 @@ Qed.
 Lemma tamper_chunk_stmt : forall c chs hs sg Y,
   skip_val c = false -> Forall wf_chunk chs -> sigs_from c 0 (map c_sig chs) ->
   hexstr hs = true -> (0 < hexv hs < 18446744073709551616)%N -> tok_ok sg = true ->
-  nth_error (exp_sigs c) (length chs) <> Some sg -> (hexv hs + 2 <= lenN Y)%N ->
+  nth_error (exp_sigs c) (length chs) <> Some (norm_sig c sg) -> (hexv hs + 2 <= lenN Y)%N ->
   decode c (enc_chunks true chs ++ hs ++ sig_ext ++ sg ++ CRLF ++ Y) = Reject.
 Proof.
   intros c chs hs sg Y Esk Hwf Hs Hhs Hv Htok Hbad Hlen. unfold decode.
@@ -278,7 +278,7 @@ Qed.
 Lemma tamper_final_stmt : forall c chs hs0 sgf tr,
   Forall wf_chunk chs -> sigs_from c 0 (map c_sig chs) ->
   hexstr hs0 = true -> hexv hs0 = 0%N -> tok_ok sgf = true ->
-  (skip_val c = false /\ nth_error (exp_sigs c) (length chs) <> Some sgf) \/ trailer_accepts c tr = false ->
+  (skip_val c = false /\ nth_error (exp_sigs c) (length chs) <> Some (norm_sig c sgf)) \/ trailer_accepts c tr = false ->
   decode c (enc (negb (skip_val c)) chs hs0 sgf tr) = Reject.
 Proof.
   intros c chs hs0 sgf tr Hwf Hs Hhs Hz Htok Hbad. unfold decode, enc.
@@ -356,7 +356,7 @@ Lemma canonical_trailer_accepts c name value ts :
   plain name = true -> name <> [] -> ~ In ":"%byte name -> to_lower name = tname c ->
   plain value = true -> plain ts = true ->
   trailer_accepts c (canonical_trailer (trailer_signed c) name value ts) =
-  (if trailer_signed c then bytes_eqb ts (exp_tsig c) else true) && bytes_eqb value (exp_ck c).
+  (if trailer_signed c then bytes_eqb (norm_sig c ts) (exp_tsig c) else true) && bytes_eqb value (exp_ck c).
 Proof.
   intros Ht Hk Hn Hne Hcolon Hlow Hv Hts. unfold trailer_accepts. rewrite Ht.
   assert (Hp : plain (name ++ B":" ++ value) = true).
@@ -376,13 +376,13 @@ Proof.
   rewrite Hs.
   rewrite (trim_space_plain name Hn), (trim_space_plain value Hv), Hlow, bytes_eqb_refl. cbn [andb].
   destruct (trailer_signed c); cbn [andb negb].
-  - destruct (bytes_eqb ts (exp_tsig c)); reflexivity.
+  - destruct (bytes_eqb (norm_sig c ts) (exp_tsig c)); reflexivity.
   - reflexivity.
 Qed.
 
 (* ---- statements used by Properties/C30.v, with every premise syntactic ---- *)
 Definition sigs_consistent (c : cfg) (sgs : list bytes) : Prop :=
-  skip_val c = true \/ forall i sg, nth_error sgs i = Some sg -> nth_error (exp_sigs c) i = Some sg.
+  skip_val c = true \/ forall i sg, nth_error sgs i = Some sg -> nth_error (exp_sigs c) i = Some (norm_sig c sg).
 
 Lemma sigs_consistent_from c sgs : sigs_consistent c sgs -> sigs_from c 0 sgs.
 Proof. intros [H|H]; [left; exact H|right; exact H]. Qed.
@@ -396,7 +396,7 @@ Lemma decode_encode_canonical : forall c chs hs0 sgf tr name value ts,
   Forall wf_chunk chs -> hexstr hs0 = true -> hexv hs0 = 0%N -> tok_ok sgf = true ->
   sigs_consistent c (map c_sig chs ++ [sgf]) ->
   (has_trailer c = false \/
-   (trailer_form c tr name value ts /\ value = exp_ck c /\ (trailer_signed c = true -> ts = exp_tsig c))) ->
+   (trailer_form c tr name value ts /\ value = exp_ck c /\ (trailer_signed c = true -> norm_sig c ts = exp_tsig c))) ->
   decode c (enc (negb (skip_val c)) chs hs0 sgf tr) = Stored (payload_of chs).
 Proof.
   intros c chs hs0 sgf tr name value ts Hwf Hhs Hz Htok Hs Htr.
@@ -413,7 +413,7 @@ Lemma tamper_trailer_canonical : forall c chs hs0 sgf name value ts,
   Forall wf_chunk chs -> hexstr hs0 = true -> hexv hs0 = 0%N -> tok_ok sgf = true ->
   sigs_consistent c (map c_sig chs) ->
   trailer_form c (canonical_trailer (trailer_signed c) name value ts) name value ts ->
-  value <> exp_ck c \/ (trailer_signed c = true /\ ts <> exp_tsig c) ->
+  value <> exp_ck c \/ (trailer_signed c = true /\ norm_sig c ts <> exp_tsig c) ->
   decode c (enc (negb (skip_val c)) chs hs0 sgf (canonical_trailer (trailer_signed c) name value ts)) = Reject.
 Proof.
   intros c chs hs0 sgf name value ts Hht Hwf Hhs Hz Htok Hs [_ [Hk [Hn [Hne [Hc [Hl [Hv Hts]]]]]]] Hbad.
@@ -427,17 +427,67 @@ Qed.
 Lemma tamper_chunk_canonical : forall c chs hs sg Y,
   skip_val c = false -> Forall wf_chunk chs -> sigs_consistent c (map c_sig chs) ->
   hexstr hs = true -> (0 < hexv hs < 18446744073709551616)%N -> tok_ok sg = true ->
-  nth_error (exp_sigs c) (length chs) <> Some sg -> (hexv hs + 2 <= lenN Y)%N ->
+  nth_error (exp_sigs c) (length chs) <> Some (norm_sig c sg) -> (hexv hs + 2 <= lenN Y)%N ->
   decode c (enc_chunks true chs ++ hs ++ sig_ext ++ sg ++ CRLF ++ Y) = Reject.
 Proof. intros. apply tamper_chunk_stmt; assumption. Qed.
 
 Lemma tamper_final_sig_canonical : forall c chs hs0 sgf tr,
   skip_val c = false -> Forall wf_chunk chs -> sigs_consistent c (map c_sig chs) ->
   hexstr hs0 = true -> hexv hs0 = 0%N -> tok_ok sgf = true ->
-  nth_error (exp_sigs c) (length chs) <> Some sgf ->
+  nth_error (exp_sigs c) (length chs) <> Some (norm_sig c sgf) ->
   decode c (enc true chs hs0 sgf tr) = Reject.
 Proof.
   intros c chs hs0 sgf tr Esk Hwf Hs Hhs Hz Htok Hbad.
   replace true with (negb (skip_val c)) by (rewrite Esk; reflexivity).
   apply tamper_final_stmt; try assumption. left. split; assumption.
+Qed.
+
+(* ---- round 3 ---- *)
+(* signed modes: a chunk header without the chunk-signature extension (e.g. the bare terminator "0 CRLF CRLF") *)
+Lemma dec_unsigned_header f c hs Y cursig calls acc :
+  skip_val c = false -> hexstr hs = true ->
+  dec (S f) c (hs ++ CRLF ++ Y) cursig calls acc = Reject.
+Proof.
+  intros Esk Hhs. pose proof Hhs as Hhs'. unfold hexstr in Hhs'. apply andb_prop in Hhs' as [_ Hh].
+  destruct (header_line false hs [] Y cursig Hh eq_refl) as [H1 H2]. cbn [ext app] in H1, H2.
+  cbn [dec]. rewrite H1. cbv zeta in H2. cbv zeta. rewrite H2. unfold header_view. rewrite Esk. reflexivity.
+Qed.
+
+Lemma unsigned_terminator_stmt : forall c chs hs Y,
+  skip_val c = false -> Forall wf_chunk chs -> sigs_consistent c (map c_sig chs) -> hexstr hs = true ->
+  decode c (enc_chunks true chs ++ hs ++ CRLF ++ Y) = Reject.
+Proof.
+  intros c chs hs Y Esk Hwf Hs Hhs. unfold decode.
+  replace true with (negb (skip_val c)) by (rewrite Esk; reflexivity).
+  destruct (decode_fuel c chs (hs ++ CRLF ++ Y)) as [f Hf]. rewrite Hf.
+  rewrite (dec_prefix chs (S f) c _ [] 0 [] Hwf (sigs_consistent_from _ _ Hs)). cbn [plus].
+  apply dec_unsigned_header; assumption.
+Qed.
+
+(* a checksum line is accepted only if its value is byte-identical (up to surrounding white space) to the expected text *)
+Lemma ck_check_text c line : mem_bytes (tname c) known_algos = true -> ck_check c line = true ->
+  exists name value, split_first ":"%byte line = Some (name, value) /\
+                     to_lower (trim_space name) = tname c /\ trim_space value = exp_ck c.
+Proof.
+  unfold ck_check. intros Hk. rewrite Hk. destruct (split_first ":"%byte line) as [[name value]|]; [|discriminate].
+  intros H. apply andb_prop in H as [H1 H2]. apply bytes_eqb_eq in H1, H2. exists name, value. auto.
+Qed.
+
+Lemma accepted_only_canonical_stmt : forall c chs hs0 sgf tr p,
+  has_trailer c = true -> mem_bytes (tname c) known_algos = true ->
+  Forall wf_chunk chs -> sigs_consistent c (map c_sig chs) ->
+  hexstr hs0 = true -> hexv hs0 = 0%N -> tok_ok sgf = true ->
+  decode c (enc (negb (skip_val c)) chs hs0 sgf tr) = Stored p ->
+  exists name value, split_first ":"%byte (fst (trailer_lines 8 true tr [] [])) = Some (name, value) /\
+                     to_lower (trim_space name) = tname c /\ trim_space value = exp_ck c.
+Proof.
+  intros c chs hs0 sgf tr p Hht Hk Hwf Hs Hhs Hz Htok Hd. unfold decode, enc in Hd.
+  destruct (decode_fuel c chs (hs0 ++ ext (negb (skip_val c)) sgf ++ CRLF ++ tr)) as [f Hf]. rewrite Hf in Hd.
+  rewrite (dec_prefix chs (S f) c _ [] 0 [] Hwf (sigs_consistent_from _ _ Hs)) in Hd. cbn [app plus] in Hd.
+  rewrite dec_final in Hd by assumption.
+  destruct (negb (skip_val c) && negb (sig_ok c (length chs) sgf)); [discriminate|].
+  unfold trailer_accepts in Hd. rewrite Hht in Hd.
+  destruct (trailer_lines 8 true tr [] []) as [ck ts]. cbn [fst].
+  destruct (trailer_signed c && negb (bytes_eqb (norm_sig c ts) (exp_tsig c))); [discriminate|].
+  destruct (ck_check c ck) eqn:E; [|discriminate]. apply ck_check_text; assumption.
 Qed.
